@@ -207,6 +207,10 @@ def check_add(ctx, repo, cls):
                             n_deleted += 1
                 for c in calls_in(s):
                     mc = method_call(c)
+                    if mc and access_path(mc[0]) == selfn and mc[1] == "remove" and c.args and access_path(c.args[0]) == member:
+                        it_deleted += 1
+                        n_deleted += 1
+                        bad["R3"] = bad["R3"] or (p, "self.remove(%s) is list.remove: it deletes the first member that is == to it; Individual equality compares design vectors, so with two members sharing a design vector (different costs) a non-dominated member is removed and the dominated one stays" % member, s)
                     if mc and access_path(mc[0]) == content:
                         if mc[1] == "append" and c.args and access_path(c.args[0]) == new:
                             inserted += 1
